@@ -10,7 +10,8 @@ RULE = ("(spending tx, funding tx) pairs synthesised and signed by the independe
         "parity / node / leaf version, annex, empty signature) x input position 0..2 of 1..3 inputs, funding output 0..2, --select right / "
         "wrong / out of range x flag modifications, plus the real-chain pairs of doc/txs; the tool's own set-up (selected input, amount, "
         "scripts, stack, version, budget, leaf hash), every step incl. commitment steps and digests, and the final validity verdict are "
-        "compared by TLC with SpendSetup / Debugger / Consensus!VerifyInput")
+        "compared by TLC with SpendSetup / Debugger / Consensus!VerifyInput; --dataset runs of the real binary (shipped and generated datasets, "
+        "file endings, missing files, explicit --tx/--txin next to the option) against Cli!DatasetExpand")
 ASSUME = ["Bitcoin's input validation rules as transcribed in spec/Consensus.tla", "taproot pairs have single-input spending transactions (tool limitation, recorded)",
           "ECDSA/BIP340: Java overrides"]
 
@@ -59,12 +60,69 @@ def cli_spends(chk, exe, jobs):
         return list(ex.map(do, enumerate(sel)))
 
 
+def dataset_runs(chk, exe, jobs, src):
+    """--dataset=<name> / -X<name> through the real binary: the shipped datasets from the tree's own doc/txs (working directory = the
+    rebuilt tree), and generated pairs written as datasets into a scratch working directory (files ending in nothing / LF / CR LF, one
+    of the two files missing, explicit --tx / --txin next to the option).  The Open event records the option values and what the two
+    files held; Cli!DatasetExpand says which session that is (or that the run is refused)."""
+    import concurrent.futures as cf, os, tempfile, shutil
+    import ptydrv
+    from c09 import RecJob
+    runs = []
+    def files(cwd, name):
+        out = {}
+        for w, suf in (("tx", "-tx"), ("in", "-in")):
+            f = os.path.join(cwd, "doc/txs", name + suf)
+            out[w] = {"present": os.path.exists(f), "text": open(f).read() if os.path.exists(f) else ""}
+        return out
+    docs = doc_pairs()
+    for k, (name, tx, txin) in enumerate(docs):
+        other = docs[(k + 1) % len(docs)]
+        for form in ("-X" + name, "--dataset=" + name):
+            runs.append((src, name, [form], "", ""))
+        runs.append((src, name, ["-X" + name, "--tx=" + tx], tx, ""))
+        runs.append((src, name, ["--txin=" + txin, "-X" + name], "", txin))
+        runs.append((src, name, ["-X" + name, "--tx=" + other[1]], other[1], ""))          # explicit --tx of another pair wins (and does not spend the file's funding)
+        runs.append((src, name, ["-X" + name, "--tx=" + other[1], "--txin=" + other[2]], other[1], other[2]))
+    runs.append((src, "no-such-dataset", ["-Xno-such-dataset"], "", ""))
+    runs.append((src, "p2pkh-tx", ["-Xp2pkh-tx"], "", ""))
+    tmp = tempfile.mkdtemp(prefix="verif-c03ds.", dir="/var/tmp")
+    os.makedirs(os.path.join(tmp, "doc/txs"))
+    sel = [j for j in jobs if j.auto and j.txctx and j.txctx.get("select", -1) in (-1, None) and sorted(j.flags) == sorted(STANDARD)]
+    sel = chk.rng.sample(sel, min(len(sel), 60 if chk.tier == "quick" else 600))
+    ends = ["", "\n", "\r\n", "\n\n"]
+    for i, j in enumerate(sel):
+        name = "gen%d" % i
+        miss = (i % 10 == 7, i % 10 == 8)
+        if not miss[0]: open(os.path.join(tmp, "doc/txs", name + "-tx"), "w", newline="").write(j.txctx["tx"] + ends[i % 4])
+        if not miss[1]: open(os.path.join(tmp, "doc/txs", name + "-in"), "w", newline="").write(j.txctx["txin"] + ends[(i // 4) % 4])
+        runs.append((tmp, name, ["-X" + name], "", "", j))
+        if miss[0]: runs.append((tmp, name, ["-X" + name, "--tx=" + j.txctx["tx"]], j.txctx["tx"], "", j))
+        if miss[1]: runs.append((tmp, name, ["--dataset=" + name, "--txin=" + j.txctx["txin"]], "", j.txctx["txin"], j))
+    def do(ir):
+        i, r = ir
+        cwd, name, opts, txopt, txinopt = r[:5]
+        res = ptydrv.run_cli([exe] + opts, stdin_tty=True, stdout_tty=False, cwd=cwd)
+        op = {"e": "Open", "id": "ds%d:%s" % (i, name), "auto": True, "cli": True, "cmp": ["stack", "err"], "select": -1, "flags": STANDARD, "sigver": "BASE",
+              "z": False, "script": "", "stack": [], "succ": "", "hist": False, "weight": 0, "pretend": [], "mode": "stdin-tty/stdout-pipe", "opts": opts,
+              "dataset": name, "txopt": txopt, "txinopt": txinopt, "dsfiles": files(cwd, name)}
+        ev = {"e": "CliRun", "code": res["code"] if res["code"] is not None else -1, "sig": res["signal"] if isinstance(res["signal"], int) else (99 if res["signal"] else 0),
+              "stdout": res["stdout"].split("\n")[:-1] if res["code"] == 0 else [], "err": res["stderr"][-400:]}
+        return (RecJob(op["id"], op), [op, ev])
+    try:
+        with cf.ThreadPoolExecutor(max_workers=16) as ex:
+            return list(ex.map(do, enumerate(runs)))
+    finally:
+        shutil.rmtree(tmp, ignore_errors=True)
+
+
 def run(chk):
     chk.build(mains=("btcdeb",))
     jobs0 = make_jobs(chk)
     jobs = jobs0 + c01.probes(chk)
     divs = chk.validate("Trace_Session", jobs, "c03")
     divs += chk.validate_recorded("Trace_Session", cli_spends(chk, chk.build_obj.exe("btcdeb"), jobs0), "c03cli")
+    divs += chk.validate_recorded("Trace_Session", dataset_runs(chk, chk.build_obj.exe("btcdeb"), jobs0, chk.build_obj.src), "c03ds")
     chk.classify(divs)
     return chk.finish(rule=RULE, assumptions=ASSUME)
 
